@@ -387,6 +387,9 @@ impl Core {
 
         // Process the TC (if any). This may also allow us to advance round.
         if let Some(ref tc) = block.tc {
+            if tc.round >= self.round {
+                self.relay_tc(tc).await;
+            }
             self.advance_round(tc.round).await;
         }
 
@@ -401,11 +404,30 @@ impl Core {
         self.process_block(block).await
     }
 
+    /// Relay a TC that lets us advance to all other nodes: the node we learned it from may have
+    /// crashed after sending it to a few nodes only, and timeouts alone cannot bring the others
+    /// to our round (they only carry a QC).
+    async fn relay_tc(&mut self, tc: &TC) {
+        debug!("Relaying {:?}", tc);
+        let addresses = self
+            .committee
+            .broadcast_addresses(&self.name)
+            .into_iter()
+            .map(|(_, x)| x)
+            .collect();
+        let message = bincode::serialize(&ConsensusMessage::TC(tc.clone()))
+            .expect("Failed to serialize timeout certificate");
+        self.network
+            .broadcast(addresses, Bytes::from(message))
+            .await;
+    }
+
     async fn handle_tc(&mut self, tc: TC) -> ConsensusResult<()> {
         tc.verify(&self.committee)?;
         if tc.round < self.round {
             return Ok(());
         }
+        self.relay_tc(&tc).await;
         self.advance_round(tc.round).await;
         if self.name == self.leader_elector.get_leader(self.round) {
             self.generate_proposal(Some(tc)).await;
